@@ -720,7 +720,7 @@ pub fn c11(args: &Args) {
     let mut report = Report::new(
         args,
         "clock",
-        "T tasks x M calls on one real datacake_node::Clock (the actor + flume channel + oneshot replies), mixing get_time, register_ts(remote) (10% of remotes beyond the allowed drift) and abandoned get_time requests (future polled once, then dropped), random yields; runtimes: current-thread and multi-thread with 2/4/16 workers. Checked on the recorded history: all returned stamps pairwise distinct and carrying the node id, per task strictly increasing, every get_time that started after a register_ts(r) had returned (global happens-before token) is > r unless r was beyond the drift. Non-trivial: every round has >= 2 tasks; distinct = distinct orderings of the first 32 results by task.",
+        "T tasks x M calls on one real datacake_node::Clock (the actor + flume channel + oneshot replies), mixing get_time, register_ts(remote) (10% of remotes beyond the allowed drift) and abandoned get_time requests (future polled once, then dropped), random yields; runtimes: current-thread and multi-thread with 2/4/16 workers; T in {2,4,16,64} and bursts of 2 500 tasks x 3 calls (more simultaneous callers than the actor's request queue of 1000 holds). Checked on the recorded history: all returned stamps pairwise distinct and carrying the node id, per task strictly increasing, every get_time that started after a register_ts(r) had returned (global happens-before token) is > r unless r was beyond the drift. Non-trivial: every round has >= 2 tasks; distinct = distinct orderings of the first 32 results by task.",
     );
     let seed = args.seed;
     let rounds = args.pick(3_000, 60_000);
@@ -733,8 +733,13 @@ pub fn c11(args: &Args) {
             break;
         }
         let (workers, name) = flavours[(r % 4) as usize];
-        let tasks = [2, 4, 16, 64][((r / 4) % 4) as usize];
-        let calls = if tasks >= 64 { 40 } else { 120 };
+        // the last shape is a burst: far more callers at once than the clock actor's request queue
+        // holds (1000), a few calls each, so that registrations meet a full queue
+        let tasks = [2, 4, 16, 64, 2_500][((r / 4) % 5) as usize];
+        let calls = if tasks >= 2_000 { 3 } else if tasks >= 64 { 40 } else { 120 };
+        if tasks >= 2_000 {
+            report.count("burst_rounds", 1);
+        }
         let (events, node) = block_on_real(workers, c11_round(seed, r, tasks, calls, true));
         let mut out = CaseOut::default();
         let order: Vec<usize> = {
@@ -757,5 +762,6 @@ pub fn c11(args: &Args) {
     }
     report.floor("stamps_returned", 50_000);
     report.floor("remote_stamps_registered", 5_000);
+    report.floor("burst_rounds", 20);
     report.finish(args);
 }
